@@ -328,6 +328,8 @@ func (c *Ctx) c05Constructor(sib string) {
 	pol := pw.Policy{Inline: inlineUnexported, MaxDepth: 2, Pure: basePure, Role: BaseRole}
 	e := pw.New(c.Pkg, pol)
 	paths, err := e.Run(fn)
+	c.curEngine = e
+	paths = c.dropFeaturePaths(name, paths)
 	if err != nil {
 		r.Unknown("R05.5", name, err.Error())
 		return
